@@ -9,6 +9,10 @@ def run_generic(pid, rep, spec, pf, verbose=False, only=None):
     if only: cs = [c for c in cs if only in c.key]
     if cs:
         obls += run_go_functions(rep, spec, cs, verbose=verbose)
+    js = contracts_for(spec, pid, 'js')
+    if only: js = [c for c in js if only in c.key]
+    if js:
+        obls += run_js_functions(rep, spec, js, verbose=verbose)
     extra = EXTRA.get(pid)
     if extra:
         obls += extra(rep, spec, verbose=verbose, only=only)
